@@ -141,6 +141,9 @@ def c05(ck, tier, seed):
     import chk_mv
     for drv in ["mtbdd", "tdd"]:
         chk_mv._run(ck, drv, ["C05"], tier, seed + 7)
+    # failed operations (terminal store full / one slot left): what they acquired must be released, the next
+    # collection is exact for inner nodes and terminals
+    chk_mv._run(ck, "mtoom", ["C05"], tier, seed + 9)
     slotalloc_mc(ck, tier)
     # beyond the property: the collector thread protocol (GcThread.tla, repaired variant) and, for information, the
     # replay of its counterexample schedule on the real manager (threads still alive after dropping managers)
